@@ -264,7 +264,52 @@ fn mk_cfg(dir: &str, toks: &[&str]) -> Config {
     c
 }
 
+/// A reader that hands out at most `k` bytes per `read` call.
+struct Dribble<'a> {
+    data: &'a [u8],
+    pos: usize,
+    k: usize,
+}
+
+impl io::Read for Dribble<'_> {
+    fn read(&mut self, buf: &mut [u8]) -> io::Result<usize> {
+        let n = buf.len().min(self.k).min(self.data.len() - self.pos);
+        buf[..n].copy_from_slice(&self.data[self.pos..self.pos + n]);
+        self.pos += n;
+        Ok(n)
+    }
+}
+
 impl Runner {
+    /// Decode one record; on success also re-encode it and compare with the bytes consumed.
+    fn do_dec(&mut self, bs: &[u8], k: usize) {
+        let r = catch_unwind(AssertUnwindSafe(|| {
+            let mut rd = Dribble { data: bs, pos: 0, k };
+            let r = Rec::decode(&mut rd);
+            (r, bs.len() - rd.pos)
+        }));
+        match r {
+            Ok((Ok(rec), rest)) => {
+                let mut again = vec![];
+                let same = rec.encode(&mut again).is_ok() && again[..] == bs[..bs.len() - rest];
+                self.emit(&format!(
+                    "dec ok {} rest={} reenc={}",
+                    show_record(&rec),
+                    rest,
+                    if same { "same" } else { "differs" }
+                ));
+            }
+            Ok((Err(e), _)) => {
+                if e.kind() == io::ErrorKind::UnexpectedEof {
+                    self.emit("dec eof")
+                } else {
+                    self.emit("dec invalid")
+                }
+            }
+            Err(_) => self.emit("dec panic"),
+        }
+    }
+
     fn emit(&mut self, s: &str) {
         let _ = writeln!(self.out, "{}", s);
     }
@@ -728,10 +773,24 @@ impl Runner {
                     s.drain_cache_evictable();
                 }
             }
-            ["drop"] => {
+            ["drop"] | ["droppanic"] => {
                 if let Some(s) = self.store.take() {
                     gate::set_mode(Mode::Free);
-                    let r = catch_unwind(AssertUnwindSafe(move || drop(s)));
+                    // while the store is being dropped, every file-system call of its worker first
+                    // checks that the directory lock is still held
+                    gate::set_lock_probe(Some(format!("{}/LOCK", self.dir)));
+                    let unwinding = toks[0] == "droppanic";
+                    let r = if unwinding {
+                        // the store is dropped by a panic unwinding through its owner
+                        let r = catch_unwind(AssertUnwindSafe(move || {
+                            let _owner = s;
+                            panic!("owner panicked");
+                        }));
+                        if r.is_err() { Ok(()) } else { Err(Box::new(()) as Box<dyn std::any::Any + Send>) }
+                    } else {
+                        catch_unwind(AssertUnwindSafe(move || drop(s)))
+                    };
+                    gate::set_lock_probe(None);
                     let alive = gate::current_worker_alive();
                     self.flush_events();
                     if r.is_err() {
@@ -1063,25 +1122,12 @@ impl Runner {
                 None => self.emit("bad-op"),
             },
             ["dec", h] => match parse_bytes(h) {
-                Some(bs) => {
-                    let r = catch_unwind(AssertUnwindSafe(|| {
-                        let mut rd: &[u8] = &bs[..];
-                        let r = Rec::decode(&mut rd);
-                        (r, rd.len())
-                    }));
-                    match r {
-                        Ok((Ok(rec), rest)) => self.emit(&format!("dec ok {} rest={}", show_record(&rec), rest)),
-                        Ok((Err(e), _)) => {
-                            if e.kind() == io::ErrorKind::UnexpectedEof {
-                                self.emit("dec eof")
-                            } else {
-                                self.emit("dec invalid")
-                            }
-                        }
-                        Err(_) => self.emit("dec panic"),
-                    }
-                }
+                Some(bs) => self.do_dec(&bs, usize::MAX),
                 None => self.emit("bad-op"),
+            },
+            ["decr", k, h] => match (k.parse::<usize>(), parse_bytes(h)) {
+                (Ok(k), Some(bs)) if k > 0 => self.do_dec(&bs, k),
+                _ => self.emit("bad-op"),
             },
             _ => self.emit("bad-op"),
         }
